@@ -81,7 +81,7 @@ Definition cmd_at (d : db) (now : Z) (c : command) : Prop :=
 
 Definition sub_at (d : db) (now : Z) (s : sub) : Prop :=
   match s with
-  | SStore cs => Forall (cmd_at d now) cs
+  | SStore cs => Forall (cmd_at d now) cs /\ txn_shape cs
   | SSender m => match sd_promise m with Some p => prec d p | None => True end
   | SRouter _ => True
   end.
@@ -90,7 +90,7 @@ Definition sub_at (d : db) (now : Z) (s : sub) : Prop :=
 Definition cmd_any (c : command) : Prop :=
   match c with
   | TimeoutLocks _ | HeartbeatLocks _ _ | HeartbeatTasks _ _ | ReadPromises _ _ | ReadSchedules _ _ | ReadTasks _ _ _
-  | AcquireLock _ _ _ _ _ | CompleteTasks _ _ | CreateTasks _ _ | UpdatePromise _ => False
+  | AcquireLock _ _ _ _ _ | CompleteTasks _ _ | CreateTasks _ _ | UpdatePromise _ | DeleteCallbacks _ => False
   | _ => True
   end.
 
@@ -157,9 +157,14 @@ Proof. intros d d' now c L H. destruct c; cbn in *; try exact H. apply (up_ok_mo
 Lemma sub_at_mono_db : forall d d' now s, prom_le d d' -> sub_at d now s -> sub_at d' now s.
 Proof.
   intros d d' now s L H. destruct s; cbn in *; try exact I.
-  - eapply Forall_impl; [|exact H]. intros c. apply cmd_at_mono_db; exact L.
+  - destruct H as [H Hsh]. split; [|exact Hsh]. eapply Forall_impl; [|exact H]. intros c. apply cmd_at_mono_db; exact L.
   - destruct (sd_promise m); [eapply prec_mono; eassumption|exact I].
 Qed.
+
+Lemma any_no_up : forall cs, Forall cmd_any cs -> Forall (fun c => is_up c = false) cs.
+Proof. intros cs H. eapply Forall_impl; [|exact H]. intros c Hc. destruct c; cbn in *; try reflexivity; contradiction. Qed.
+
+
 
 
 (* ---------- results vs. the commands they answer ---------- *)
@@ -215,6 +220,7 @@ Definition k_expects (k : kont) (s : sub) : Prop :=
   | KCreate r _ _ => s = SStore [ReadPromise (cpr_id r)]
   | KComplete r => s = SStore [ReadPromise (cmr_id r)]
   | KCallback pid _ _ _ _ => s = SStore [ReadPromise pid]
+  | KCallback_reread pid => s = SStore [ReadPromise pid]
   | KReadP_to _ _ cmd => exists t, s = SStore (completion_txn cmd t)
   | KCreate_to _ _ _ _ cmd => exists t, s = SStore (completion_txn cmd t)
   | KComplete_up _ _ cmd _ => exists t, s = SStore (completion_txn cmd t)
@@ -283,21 +289,24 @@ Proof.
 Qed.
 
 Lemma completion_txn_at : forall d now cmd, up_ok d now cmd -> sub_at d now (SStore (completion_txn cmd now)).
-Proof. intros d now cmd H. cbn. repeat constructor; cbn; auto. Qed.
+Proof. intros d now cmd H. cbn. split; [repeat constructor; cbn; auto|left; eauto]. Qed.
 
 (* ---------- start ---------- *)
 
+(* a store submission whose commands are all listed explicitly and contain no UpdatePromise *)
+Ltac sub_store := cbn; split; [repeat constructor; auto | right; repeat constructor].
+Ltac wait_ok := apply out_wait_ok; [sub_store | cbn; auto | cbn; eauto].
 Ltac fin := first [apply out_fin_nil; reflexivity | (apply out_fin_ok; cbn; repeat constructor; auto; fail)].
 Ltac fin1 := apply out_fin_ok; cbn; repeat constructor; auto.
 
 Lemma start_req_ok : forall d q now next, req_wf q -> out_ok d now next (start_req q now next).
 Proof.
-  intros d q now next Hq. destruct q; cbn; try (apply out_wait_ok; cbn; auto; repeat constructor; fail).
-  destruct (String.eqb pid root); [fin|]. apply out_wait_ok; cbn; auto; repeat constructor.
+  intros d q now next Hq. destruct q; cbn; try (wait_ok; fail).
+  destruct (String.eqb pid root); [fin|]. wait_ok.
 Qed.
 
 Lemma start_bg_ok : forall d cfg b now next, out_ok d now next (start_bg cfg b now next).
-Proof. intros d cfg b now next. destruct b; cbn; apply out_wait_ok; cbn; eauto; repeat constructor. Qed.
+Proof. intros d cfg b now next. destruct b; cbn; wait_ok. Qed.
 
 Lemma prec_unsorted : forall d p, prec d p -> prec d (p_unsorted p).
 Proof. intros d p [q [Hq [C K]]]. exists q. split; [exact Hq|]. split; [exact C|exact K]. Qed.
@@ -386,13 +395,14 @@ Section Resume.
   Lemma r_KCreate_router : forall r tc wt pc c, out_ok d now next (resume_seq cfg (KCreate_router r tc wt pc) c now next).
   Proof.
     intros r tc wt pc c. cbn. destruct (create_cmd pc tc c) as [[cmd tc']|] eqn:E; [|fin].
+    pose proof (create_cmd_any _ _ _ _ _ E) as Hany.
     apply out_wait_ok; cbn; auto.
-    - repeat constructor. apply cmd_any_at. eapply create_cmd_any; eassumption.
+    - split; [repeat constructor; apply cmd_any_at; exact Hany|right; apply any_no_up; repeat constructor; exact Hany].
     - destruct (create_cmd_shape _ _ _ _ _ E) as [->|[t ->]]; eauto.
   Qed.
 
   Lemma req_of_create_ok : forall r tc wt, out_ok d now next (req_of_create r tc wt now next).
-  Proof. intros. unfold req_of_create. apply out_wait_ok; cbn; auto. repeat constructor. Qed.
+  Proof. intros. unfold req_of_create. wait_ok. Qed.
 
   Lemma r_KCreate_store : forall r tc0 wt pc tc s c, k_expects (KCreate_store r tc0 wt pc tc) s -> rdy_ok d s c ->
                                                      out_ok d now next (resume_seq cfg (KCreate_store r tc0 wt pc tc) c now next).
@@ -452,11 +462,18 @@ Section Resume.
     intros pid cbid m timeout recv s c He Hr. cbn in He. subst s. cbn.
     destruct (one_promise c) as [[p|]|] eqn:E; try fin.
     destruct (read_fact d _ c p Hr E) as [Hp Hid].
-    destruct (p_state p =? Pending); [|fin]. apply out_wait_ok; cbn; auto. repeat constructor.
+    destruct (p_state p =? Pending); [|fin]. wait_ok.
   Qed.
 
   Lemma r_KCallback_ins : forall p cc c, k_ok d (KCallback_ins p cc) -> out_ok d now next (resume_seq cfg (KCallback_ins p cc) c now next).
-  Proof. intros p cc c Hp. cbn in Hp. cbn. destruct (one_alter c) as [n|]; [|fin]. destruct (n =? 1); fin. Qed.
+  Proof. intros p cc c Hp. cbn in Hp. cbn. destruct (one_alter c) as [n|]; [|fin]. destruct (n =? 1); [fin|wait_ok]. Qed.
+
+  Lemma r_KCallback_reread : forall pid s c, k_expects (KCallback_reread pid) s -> rdy_ok d s c ->
+                                             out_ok d now next (resume_seq cfg (KCallback_reread pid) c now next).
+  Proof.
+    intros pid s c He Hr. cbn in He. subst s. cbn. destruct (one_promise c) as [[p|]|] eqn:E; try fin.
+    destruct (read_fact d _ c p Hr E) as [Hp Hid]. fin.
+  Qed.
 
   Lemma r_KClaim_read : forall t s c, k_expects (KClaim_read t) s -> rdy_ok d s c -> out_ok d now next (resume_seq cfg (KClaim_read t) c now next).
   Proof.
@@ -609,12 +626,16 @@ Section Resume2.
     pose proof (spawn_sends_pre cfg now (add64 now (c_enq_delay cfg)) ts rs next) as H4.
     destruct (spawn_sends cfg now (add64 now (c_enq_delay cfg)) ts rs next) as [[sl sb] pre]. cbn in *.
     destruct sb as [|s0 sb].
-    - destruct pre as [|c0 pre]; [fin|]. apply out_wait_ok; cbn; auto. apply Forall_any_at; exact H4.
+    - destruct pre as [|c0 pre]; [fin|]. apply out_wait_ok; cbn; auto.
+      split; [apply Forall_any_at; exact H4|right; apply any_no_up; exact H4].
     - apply fan_out_ok; cbn; auto.
   Qed.
 
-  Lemma map_any : forall {A} (f : A -> command) l, (forall x, cmd_any (f x)) -> Forall (cmd_at d now) (map f l).
-  Proof. intros A f l H. apply Forall_forall. intros c Hc. apply in_map_iff in Hc. destruct Hc as [x [<- _]]. apply cmd_any_at. apply H. Qed.
+  Lemma map_any : forall {A} (f : A -> command) l, (forall x, cmd_any (f x)) -> Forall cmd_any (map f l).
+  Proof. intros A f l H. apply Forall_forall. intros c Hc. apply in_map_iff in Hc. destruct Hc as [x [<- _]]. apply H. Qed.
+
+  Lemma any_sub : forall cs, Forall cmd_any cs -> sub_at d now (SStore cs).
+  Proof. intros cs H. cbn. split; [apply Forall_any_at; exact H|right; apply any_no_up; exact H]. Qed.
 
   Lemma resume_seq_ok : forall k s c, k_ok d k -> k_expects k s -> rdy_ok d s c -> out_ok d now next (resume_seq cfg k c now next).
   Proof.
@@ -622,7 +643,8 @@ Section Resume2.
       try (eapply r_KReadP; eassumption); try (eapply r_KReadP_to; eassumption); try (eapply r_KCreate; eassumption);
       try apply r_KCreate_router; try (eapply r_KCreate_store; eassumption); try (eapply r_KCreate_to; eassumption);
       try (eapply r_KComplete; eassumption); try (eapply r_KComplete_up; eassumption);
-      try (eapply r_KCallback; eassumption); try (apply r_KCallback_ins; assumption); try (eapply r_KSearchP; eassumption);
+      try (eapply r_KCallback; eassumption); try (apply r_KCallback_ins; assumption); try (eapply r_KCallback_reread; eassumption);
+      try (eapply r_KSearchP; eassumption);
       try (eapply r_KClaim_read; eassumption);
       try (eapply r_KBgTimeoutP; eassumption); try apply r_KBgSchedule; try (eapply r_KBgEnqueue_promises; eassumption).
     all: cbn.
@@ -630,11 +652,12 @@ Section Resume2.
                 | |- out_ok _ _ _ (match ?x with _ => _ end) => destruct x eqn:?
                 end.
     all: try fin.
-    all: try (apply out_wait_ok; cbn; auto; repeat constructor; fail).
+    all: try (wait_ok; fail).
     all: try (exact (start_req_ok d _ now next I)).
-    - apply out_wait_ok; cbn; auto. constructor; [exact I|]. destruct (_ =? _)%string; repeat constructor.
-    - apply out_wait_ok; cbn; auto. constructor; [exact I|]. apply (map_any (fun t0 => ReadPromise (t_root t0))). intros; exact I.
-    - apply out_wait_ok; cbn; auto. constructor; [destruct (now <? _); exact I|].
+    - apply out_wait_ok; [apply any_sub|cbn; auto|cbn; auto]. constructor; [exact I|]. destruct (_ =? _)%string; repeat constructor.
+    - apply out_wait_ok; [apply any_sub|cbn; auto|cbn; auto]. constructor; [exact I|].
+      apply (map_any (fun t0 => ReadPromise (t_root t0))). intros; exact I.
+    - apply out_wait_ok; [apply any_sub|cbn; auto|cbn; auto]. constructor; [destruct (now <? _); exact I|].
       apply map_any. intros x. destruct (now <? t_timeout x); exact I.
   Qed.
 End Resume2.
@@ -643,7 +666,9 @@ Lemma wake_slot_at : forall d s c next now, extra_ok s -> Forall (sub_at d now) 
 Proof.
   intros d s c next now He. destruct s; cbn; try constructor.
   destruct (create_cmd pc None c) as [[cmd tc]|] eqn:E; cbn; [|constructor].
-  repeat constructor; [apply cmd_any_at; eapply create_cmd_any; eassumption|apply Forall_any_at; exact He].
+  pose proof (create_cmd_any _ _ _ _ _ E) as Hany.
+  constructor; [|constructor]. cbn. split; [constructor; [apply cmd_any_at; exact Hany|apply Forall_any_at; exact He]|].
+  right. apply any_no_up. constructor; assumption.
 Qed.
 
 Lemma wake_slot_extra : forall s c next, extra_ok s -> extra_ok (fst (wake_slot s c next)).
@@ -696,15 +721,17 @@ Proof.
   destruct (run_wake wake slots dl next) as [[[[sl w] rq] sb] nx]. destruct Hw as [Hsb [Hsl Hnx]].
   destruct k.
   - destruct (await_in_order true sl); cbn; try (unfold out_ok, link_ok; cbn; repeat split; auto; fail).
-    unfold out_ok, link_ok; cbn. split; [apply Forall_app; split; [assumption|repeat constructor]|]. split; [exact I|].
-    split; [|exact I]. split; [lia|]. eexists. split; [apply nth_error_app_len; lia|reflexivity].
+    unfold out_ok, link_ok; cbn. split; [apply Forall_app; split; [assumption|]|].
+    { constructor; [|constructor]. sub_store. }
+    split; [exact I|]. split; [|exact I]. split; [lia|]. eexists. split; [apply nth_error_app_len; lia|reflexivity].
   - destruct (await_in_order false sl); cbn; unfold out_ok, link_ok; cbn; repeat split; auto.
   - destruct (await_in_order false sl); cbn; unfold out_ok, link_ok; cbn; repeat split; auto.
   - destruct (await_in_order false sl); cbn; try (unfold out_ok, link_ok; cbn; repeat split; auto; fail).
     destruct (pre ++ enq_final ts now0 exp sl)%list eqn:E; cbn; unfold out_ok, link_ok; cbn; [repeat split; auto|].
     split; [|split; [exact I|split; [|exact I]]].
-    + apply Forall_app; split; [assumption|]. constructor; [|constructor]. cbn. rewrite <- E.
-      apply Forall_any_at. apply Forall_app; split; [exact Hk|apply enq_final_any].
+    + apply Forall_app; split; [assumption|]. constructor; [|constructor]. rewrite <- E.
+      assert (Hall : Forall cmd_any (pre ++ enq_final ts now0 exp sl)%list) by (apply Forall_app; split; [exact Hk|apply enq_final_any]).
+      cbn. split; [apply Forall_any_at; exact Hall|right; apply any_no_up; exact Hall].
     + split; [lia|]. eexists. split; [apply nth_error_app_len; lia|exact I].
 Qed.
 
